@@ -61,6 +61,10 @@ def gen_unit(unit, outdir=UNITS, repo=None, canaries=True):
     l0 = txt[:idx].count("\n") + 1
     # the canary pulls in every trusted broadcast axiom that exists in this unit
     names = [n for n in ["group_field_bool", "axiom_val_in_field", "axiom_H_shape", "lemma_rc_ok", "axiom_spec_lz"] if re.search(r"\b(fn|group)\s+%s\b" % n, txt)]
+    # ... and every other TRUSTED (external_body) broadcast axiom of the unit
+    for mm in re.finditer(r"#\[verifier::external_body\]\s*pub broadcast proof fn (\w+)", txt):
+        if mm.group(1) not in names:
+            names.append(mm.group(1))
     canary = GLOBAL_CANARY.replace("    broadcast use group_field_bool, axiom_val_in_field, axiom_H_shape, lemma_rc_ok;\n", ("    broadcast use %s;\n" % ", ".join(names)) if names else "")
     txt = txt[:idx] + canary + txt[idx:]
     report["global_canary_lines"] = [l0, l0 + canary.count("\n")]
